@@ -108,6 +108,8 @@ def run_script(chk, prog, sim, up, get, script, key, expect_tags_fn):
                     elif cat == "S" and len(chk.samples) < 5:
                         chk.sample({"script": [c + ":" + t for c, t in script], "after": tag, "output": A.show(A.to_sympy(g[2]))})
         frontier = nxt
+        if not ok:
+            break      # already failed: later steps only repeat the report and can be very slow on a wrong formula
     return ok
 
 
@@ -191,6 +193,25 @@ def run(chk):
         chk.obligation(key, "event script " + key)
         if run_script(chk, prog, sim, up, get, script, key, hf):
             chk.discharge(key)
+    # the reset must not depend on the profile (a store under cfg(debug_assertions) disappears in a release build): the two
+    # gap scripts again on K6 = default features, --release
+    import report
+    p6 = load_config("K6")
+    chk.configs.append("K6")
+    s6 = S.Sim(p6)
+    up6 = p6.find_fn(name="update", self_name=NAME, trait="Updatable")
+    get6 = p6.find_fn(name="get", self_name=NAME, trait="Getter")
+    for key in ("run:SSNSS", "run:SSESS"):
+        script, hf = scripts[key]
+        k6 = key + "@K6"
+        chk.obligation(k6, "event script %s in the release profile" % key)
+        sub6 = report.Check("C04", chk.tier)
+        good = run_script(sub6, p6, s6, up6, get6, script, k6, hf)
+        chk.evaluations += sub6.evaluations
+        for v in sub6.violations:
+            chk.violation(v["rule"], v["key"] + ("" if "@K6" in v["key"] else "@K6"), "[release profile] " + v["what"], **v["detail"])
+        if good and not sub6.violations:
+            chk.discharge(k6)
     check_symbolic_step(chk, prog, sim, up, get)
     # siblings
     key = "siblings"
